@@ -16,9 +16,14 @@ PROP = "C05"
 CORR = "Corr.C05"
 HEADER = "From Coq Require Import PrimFloat.\nFrom Verif Require Import Spec.Pddl Spec.Problem.\n"
 
+# plain-decimal numerals whose repr() is in exponent form (|v| < 1e-4, >= 1e16), positive and negative: the exporter
+# writes repr(float), so these exercise "the exported text uses a notation the source did not"
+PLAIN_WITH_EXPONENT_REPR = ["0.00002", "-0.00002", "0.000000123", "25000000000000000", "-25000000000000000",
+                            "10000000000000000", "-0.00009999", "123456789012345678"]
 NUMERALS = ["0", "3", "-1", "2.5", "0.1", "-0.75", "1e3", "2.5e-2", "-1E2", "1e16", "123456.789",
-            "0.30000000000000004", ".5", "5.", "+4", "7", "10", "-0.0", "1e-7", "42.125"]
-GOAL_NUMERALS = ["0", "1", "2.5", "-3", "0.1", "2.123456", "1e3", "0.00001", "7", "-0.5", "100.0625", "1e-7"]
+            "0.30000000000000004", ".5", "5.", "+4", "7", "10", "-0.0", "1e-7", "42.125", "-7.25", "-300"] + PLAIN_WITH_EXPONENT_REPR
+GOAL_NUMERALS = ["0", "1", "2.5", "-3", "0.1", "2.123456", "1e3", "0.00001", "7", "-0.5", "100.0625", "1e-7",
+                 "-0.00002", "25000000000000000", "-25000000000000000", "0.000000123"]
 CMPS = [">=", "<=", ">", "<", "="]
 
 
